@@ -241,7 +241,7 @@ def col_partition(rng, spec, k):
     return parts
 
 
-class C08(core.Check):
+class C08(frame.Findings, core.Check):
     pid = 'C08'
     title = 'TensorFrame concatenation, equality and column lookup laws'
     driver = 'drv_c07'
@@ -451,6 +451,11 @@ class C08(core.Check):
     # -- real side -----------------------------------------------------------------------------------
     def real(self, case):
         self._findings = []
+        out = self._real(case)
+        self.remember(case, self._findings)
+        return out
+
+    def _real(self, case):
         kind = case['kind']
         if kind == 'cat':
             return self.real_cat(case)
@@ -630,8 +635,9 @@ class C08(core.Check):
         return real == model
 
     def oracle(self, case, real_outcome):
-        if self._findings:
-            key, what, exp, got = self._findings[0]
+        findings = self.recall(case)
+        if findings:
+            key, what, exp, got = findings[0]
             return core.Violation(key, what, case, exp, got)
         return None
 
